@@ -1,12 +1,18 @@
 (* C09 - Validation is total: hostile input is rejected, never a crash or hang.
    Pinned statements only; proofs in STF/Proofs/Total.v.
-   In the model every Rust panic site is an explicit [Panic tag] outcome.  The full statement (no reachable
-   state and no input makes apply_tx_batch / seal / apply_block / confirm return Panic) is checked on the real
-   code by the harness (every call runs under catch_unwind, in debug builds - overflow checks on - and the
-   model's Panic outcomes are compared with the real ones); what is PROVED for all inputs is that each panic
-   site is unreachable under its guard.  Not covered by any theorem: allocation failure, stack depth, and the
+   In the model every Rust panic site is an explicit [Panic tag] outcome.
+   PROVED for all inputs: each panic site is unreachable under its guard, and - for a whole batch -
+   [C09_batch_never_panics]: apply_tx_batch returns a state or a rejection, never a panic, for every batch
+   of arbitrary transactions, under stated invariants of the state (counts consistent when TIP-906 is active;
+   the history has no header at or above the current height and records positive DOSC speeds) and stated
+   bounds (height <= 3*10^6 so the inflator is in closed form, mint difficulties <= 40, and the inputs of a
+   transaction sum to less than 2^128 per denomination - the supply bound of the property).
+   NOT proved (checked on the real code by the harness: every call runs under catch_unwind, in debug builds -
+   overflow checks on - and the model's Panic outcomes are compared with the real ones): totality of seal and
+   apply_block over whole histories.  Not covered by any theorem: allocation failure, stack depth, and the
    internals of the dependency crates (their panic behaviour is part of the oracles). *)
-From MelVerif Require Import STF.Model VM.Exec STF.Proofs.Pool STF.Proofs.Counts STF.Proofs.Total.
+From MelVerif Require Import STF.Model VM.Exec STF.Proofs.Pool STF.Proofs.Counts STF.Proofs.Total STF.Proofs.Supply
+  STF.Proofs.HashFacts STF.Proofs.NoPanicBatch STF.Proofs.Witness.
 Open Scope N_scope.
 
 Theorem C09_covenants_terminate : forall O prog hp, run O prog hp <> OutOfFuel.
@@ -47,3 +53,23 @@ Print Assumptions C09_zero_total_share_is_zero.
 Theorem C09_counts_cannot_underflow : forall ks cn, CountsOk cn -> exists r, remove_coins true ks cn = Ok r.
 Proof. exact spending_cannot_underflow_counts. Qed.
 Print Assumptions C09_counts_cannot_underflow.
+
+(* a whole batch: whatever the transactions are, the outcome is a new state or a rejection *)
+Theorem C09_batch_never_panics : forall SO s lh txs,
+  HashOK SO s txs ->
+  (tip_906 s = true -> CountsOk (s_coins s, s_counts s)) ->
+  HistOK s -> s_height s <= 3000000 ->
+  (forall t, In t txs -> mint_small t) ->
+  (forall relevant t d, load_relevant_coins s txs = Ok relevant -> In t txs -> in_sum relevant d (t_inputs t) < U128) ->
+  no_panic (apply_tx_batch SO s lh txs).
+Proof. exact apply_tx_batch_never_panics. Qed.
+Print Assumptions C09_batch_never_panics.
+
+(* the hypotheses hold together on the concrete batch of STF/Proofs/Witness.v *)
+Example C09_batch_witness :
+  HashOK w_oracle w_state w_batch /\ HistOK w_state /\ s_height w_state <= 3000000 /\
+  (forall t, In t w_batch -> mint_small t).
+Proof.
+  split; [exact w_hash_ok|]. split; [intros h hd E; cbn [s_history w_state] in E; rewrite lookup_empty in E; discriminate|]. split; [vm_compute; discriminate|].
+  intros t Ht d pid E. cbn in Ht. destruct Ht as [<-|[<-|[<-|[]]]]; discriminate.
+Qed.
